@@ -45,6 +45,7 @@ type hclPrinter struct {
 	redef  int // number of redefinitions of a local in another block
 	bare   int // strings written as bare numbers / bools
 	idx    int // index / attribute accesses into a local
+	nulls  int // locals whose value is null
 	usedFn map[string]bool
 }
 
@@ -203,6 +204,32 @@ func (p *hclPrinter) lateRedef(name string, decoy hx) {
 	}
 }
 
+// nullExpr: how an argument that is left out is spelled (ok=false: not at all)
+func (p *hclPrinter) nullExpr() (hx, bool) {
+	lit := hx{"null", "n"}
+	if p.fancy == 0 {
+		if p.r.Intn(2) == 0 {
+			return hx{}, false
+		}
+		return lit, true
+	}
+	switch p.r.Intn(5) {
+	case 0:
+		return hx{}, false
+	case 1:
+		return lit, true
+	case 2, 3:
+		p.nulls++
+		l, _ := p.newLocal("z", lit, hx{}, stBase)
+		return l, true
+	default:
+		p.nulls++
+		l, _ := p.newLocal("z", lit, hx{}, stBase)
+		d, _ := p.newLocal("d", l, hx{}, stDerive)
+		return d, true
+	}
+}
+
 func (p *hclPrinter) roll() bool { return p.fancy > 0 && p.r.Intn(100) < p.fancy }
 
 func (p *hclPrinter) fn(name string) { p.usedFn[name] = true }
@@ -285,8 +312,14 @@ func (p *hclPrinter) strExpr(s string, inline bool) hx {
 			return call("index", tuple(qs("x"), qs(s)), hx{"1", encInt(1)})
 		}
 		p.fn("coalesce")
-		if p.r.Intn(2) == 0 {
+		switch p.r.Intn(3) {
+		case 0:
 			return call("coalesce", hx{"null", "n"}, qs(s), qs("other"))
+		case 1:
+			// a local whose value is null, defined in an earlier block: coalesce(local.z1, "value")
+			p.nulls++
+			z, _ := p.newLocal("z", hx{"null", "n"}, hx{}, stBase)
+			return call("coalesce", z, qs(s), qs("other"))
 		}
 		return call("coalesce", qs(s), qs("other"))
 	case 5:
@@ -660,6 +693,15 @@ func (p *hclPrinter) body(b *strings.Builder, st string, n *Node, ind string) st
 		}
 		enc.WriteString("k" + hex.EncodeToString([]byte(kv.K)) + ".")
 		if kv.V.K == 'n' {
+			// an optional argument the description leaves out (all of them are pointers in the HCL structs): not written at
+			// all, written as `null`, or as a reference to a local whose value is null (directly or through a derived local)
+			if f.kind == kAttr {
+				if e, ok := p.nullExpr(); ok {
+					b.WriteString(ind + f.name + " = " + e.txt + "\n")
+					enc.WriteString(e.enc)
+					continue
+				}
+			}
 			enc.WriteString("n")
 			continue
 		}
@@ -692,6 +734,7 @@ type hclFile struct {
 	redef int
 	bare  int
 	idx   int
+	nulls int
 	lb    string
 	hb    string
 }
@@ -741,5 +784,5 @@ func printHCL(d *Node, r *rand.Rand, fancy int) hclFile {
 		fns = append(fns, "locals")
 	}
 	sort.Strings(fns)
-	return hclFile{text: out.String(), fns: fns, redef: p.redef, bare: p.bare, idx: p.idx, lb: lb.String(), hb: hb}
+	return hclFile{text: out.String(), fns: fns, redef: p.redef, bare: p.bare, idx: p.idx, nulls: p.nulls, lb: lb.String(), hb: hb}
 }
